@@ -408,6 +408,168 @@ def compOfText (master : String → Option Rat) (minor : String → Bool) (dflt 
            asElts := (Formula.parseFormula (String.ofList t.asName)).getD [("?", 1)],
            masterGfw := master first, minor := minor name }
 
+/-! ## Solution-level options of SOLUTION blocks and SOLUTION_SPREAD rows
+
+`read_solution`, the block-level part of `read_solution_spread` (the defaults) and `spread_row_to_solution` process the
+same options with three slightly different option lists; a SPREAD row starts from the block-level defaults (which start from
+the built-in ones) and every column string `heading datum unit-cell` is dispatched like a line of a SOLUTION block. The units a
+constituent without units of its own inherits are the units in force for the *row* at the end (`initial_data->units`):
+row cell > block-level `-units` > built-in `mmol/kgw`. -/
+namespace Sol
+open Txt
+
+/-- what the options set -/
+structure Settings where
+  units : Unit := ⟨.milli, .mol, .perKgw⟩
+  temp : Rat := 25
+  ph : Rat := 7
+  pe : Rat := 4
+  density : Rat := 1
+  calcDens : Bool := false
+  water : Rat := 1
+  press : Rat := 1
+  deriving DecidableEq
+
+inductive Opt | temp | dens | units | ph | pe | water | press | other
+  deriving DecidableEq
+
+/-- the first eleven names are common to the three option lists -/
+def commonOpts : List String := ["temp", "temperature", "dens", "density", "units", "redox", "ph", "pe", "unit", "isotope", "water"]
+/-- `read_solution` -/
+def blockOpts : List String := commonOpts ++ ["press", "pressure", "potential"]
+/-- `spread_row_to_solution` -/
+def rowOpts : List String := commonOpts ++ ["description", "desc", "descriptor", "pressure", "press", "potential"]
+/-- `read_solution_spread` (block level) -/
+def defaultOpts : List String := commonOpts ++ ["isotope_uncertainty", "uncertainty", "uncertainties", "pressure", "press"]
+
+def semOfName (n : String) : Opt :=
+  if n == "temp" || n == "temperature" then .temp else if n == "dens" || n == "density" then .dens
+  else if n == "units" || n == "unit" then .units else if n == "ph" then .ph else if n == "pe" then .pe
+  else if n == "water" then .water else if n == "press" || n == "pressure" then .press else .other
+
+/-- does the case-folded token name the option (exactly / as a prefix) -/
+def optMatches (exact : Bool) (tok : List Char) (o : String) : Bool :=
+  if exact then lower tok == o.toList else isPrefix (lower tok) o.toList
+
+/-- `find_option`: case-folded, exact or prefix, first hit -/
+def findOpt (exact : Bool) (tok : List Char) : List String → Option String
+  | [] => none
+  | o :: os => if optMatches exact tok o then some o else findOpt exact tok os
+
+inductive Ctx | block | row | dflt
+  deriving DecidableEq
+
+/-- what a line is: an option of the list (`-name` by prefix, `name` exactly), or not an option (OPTION_DEFAULT; a `-x` that
+matches nothing is OPTION_ERROR = `some none`) -/
+def dispatch (list : List String) (toks : List (List Char)) : Option (Option String) :=
+  match toks with
+  | [] => none
+  | t :: _ => if t.head? = some '-' then some (findOpt false (t.drop 1) list) else (findOpt true t list).map some
+
+/-- effect of one option line on the settings; `none` = input error. The differences between the three readers are kept:
+`water` without a value is 1 in a SOLUTION block and in a row but an error at block level of SOLUTION_SPREAD; `units` is
+`check_units(token, false, false, …)` everywhere; pH / pe take the number after the name (through the constituent reader in a
+block or row, through `sscanf` at block level). -/
+def applyOpt (ctx : Ctx) (s : Settings) (o : Opt) (args : List (List Char)) : Option Settings :=
+  match o, args with
+  | .temp, a :: _ => (scanNum a).map fun v => { s with temp := v }
+  | .temp, [] => some s
+  | .dens, a :: r =>
+    match scanNum a with
+    | none => if ctx == .dflt && (a.head? == some 'c' || a.head? == some 'C') then some { s with calcDens := true } else none
+    | some v =>
+      match r with
+      | [] => some { s with density := v }
+      | c :: _ => if c.head? == some 'c' || c.head? == some 'C' then some { s with density := v, calcDens := true }
+                  else if ctx == .dflt then some { s with density := v } else none
+  | .dens, [] => if ctx == .dflt then some s else none
+  | .units, a :: _ => ((checkUnits false a false false []).bind Unit.ofChars).map fun u => { s with units := u }
+  | .units, [] => some s
+  | .ph, a :: _ => (scanNum a).map fun v => { s with ph := v }
+  | .ph, [] => if ctx == .dflt then some s else none
+  | .pe, a :: _ => (scanNum a).map fun v => { s with pe := v }
+  | .pe, [] => if ctx == .dflt then some s else none
+  | .water, a :: _ => if isDigitTok a then (scanNum a).map fun v => { s with water := v } else none
+  | .water, [] => if ctx == .dflt then none else some { s with water := 1 }
+  | .press, a :: _ => match scanNum a with
+    | some v => some { s with press := v }
+    | none => if ctx == .block then some { s with press := 1 } else some s
+  | .press, [] => if ctx == .block then some { s with press := 1 } else some s
+  | .other, _ => some s
+
+/-- a solution as read: settings and constituent lines (in input order) -/
+structure Read where
+  set : Settings
+  comps : List CompText
+  deriving DecidableEq
+
+/-- one line of a SOLUTION block, or one column string of a SPREAD row (`ctx = .row`: exact names only come from headings,
+lower-case non-options are skipped, a constituent that does not parse is dropped without error) -/
+def stepLine (ctx : Ctx) (acc : Option Read) (line : List Char) : Option Read :=
+  match acc with
+  | none => none
+  | some r =>
+    let toks := tokens line
+    let list := if ctx == .row then rowOpts else blockOpts
+    match dispatch list toks with
+    | some none => none                                   -- OPTION_ERROR
+    | some (some name) => (applyOpt ctx r.set (semOfName name) (toks.drop 1)).map fun s => { r with set := s }
+    | none =>
+      match toks with
+      | [] => some r
+      | t :: _ =>
+        if ctx == .row then
+          if isLowerFirst t then some r
+          else if isDigitTok t then some r                 -- isotope column
+          else match readCompLine line with
+            | some c => some { r with comps := r.comps ++ [c] }
+            | none => some r
+        else if isDigitTok t then some r                   -- isotope line
+        else (readCompLine line).map fun c => { r with comps := r.comps ++ [c] }
+
+/-- block-level option lines of SOLUTION_SPREAD (written with the dash) -/
+def stepDefault (acc : Option Settings) (line : List Char) : Option Settings :=
+  match acc with
+  | none => none
+  | some s =>
+    let toks := tokens line
+    match dispatch defaultOpts toks with
+    | some (some name) => applyOpt .dflt s (semOfName name) (toks.drop 1)
+    | _ => none
+
+/-- `SOLUTION n` followed by `lines` -/
+def readBlock (lines : List (List Char)) : Option Read := lines.foldl (stepLine .block) (some ⟨{}, []⟩)
+
+/-- one data row of a SOLUTION_SPREAD: block-level option lines, then the column strings of the row -/
+def readRow (defaults : List (List Char)) (cells : List (List Char × List Char × List Char)) : Option Read :=
+  match defaults.foldl stepDefault (some {}) with
+  | none => none
+  | some d => (cells.map fun c => spreadCell c.1 c.2.1 c.2.2).foldl (stepLine .row) (some ⟨d, []⟩)
+
+/-- the constituents `convert_units` sees: the keyed map (a repeated name: last wins) with the units fix-up against the
+units in force at the END of the block / row -/
+def compsOf (master : String → Option Rat) (minor : String → Bool) (r : Read) : Option (List Comp) :=
+  r.comps.mapM (compOfText master minor r.set.units)
+
+/-- an option value that all three readers treat alike -/
+def Regular (o : Opt) (args : List (List Char)) : Prop :=
+  match o, args with
+  | _, [] => False
+  | .dens, a :: r => (scanNum a).isSome ∧ (r = [] ∨ ∃ c r', r = c :: r' ∧ (c.head? = some 'c' ∨ c.head? = some 'C'))
+  | .press, a :: _ => (scanNum a).isSome
+  | _, _ :: _ => True
+
+/-- a line that is an option among the eleven names common to the three readers, with a regular value -/
+def CommonOpt (l : List Char) : Prop :=
+  ∃ n, dispatch commonOpts (tokens l) = some (some n) ∧ Regular (semOfName n) ((tokens l).drop 1)
+
+/-- a line that is a constituent for both readers and parses -/
+def ConstituentLine (l : List Char) : Prop :=
+  dispatch blockOpts (tokens l) = none ∧ dispatch rowOpts (tokens l) = none ∧
+  (∃ t ts, tokens l = t :: ts ∧ isLowerFirst t = false ∧ isDigitTok t = false) ∧ (readCompLine l).isSome
+
+end Sol
+
 /-- spellings the manual documents (and a few the code accepts through its replacement list), with the unit they denote -/
 def documentedSpellings : List (String × Unit) :=
   [("mol/kgw", ⟨.one, .mol, .perKgw⟩), ("Mol/kgw", ⟨.one, .mol, .perKgw⟩), ("moles/kgw", ⟨.one, .mol, .perKgw⟩),
